@@ -1431,9 +1431,19 @@ class Evaluator(object):
             fn = args[0]
             args = args[1:]
         args, kw = self.canonical_args(fn, args, kw)
-        if fn is not None and fn.op == "glob" and fn.a[0] in _namedtuples(self.P)[0] and not any(a_.op == "star" for a_ in args) and not any(k_ == "**" for k_, _ in kw):
+        nt_fields = None
+        if fn is not None and fn.op == "glob" and fn.a[0] in _namedtuples(self.P)[0]:
+            nt_fields = _namedtuples(self.P)[0][fn.a[0]]
+        elif fn is not None and fn.op == "call" and tm.callee_name(fn.a[0]) in ("collections.namedtuple", "namedtuple") and len(fn.a[1]) == 2:
+            # (module level: the class object itself is the value of the name)
+            f2 = fn.a[1][1]
+            if f2.op in ("list", "tuple") and all(z.op == "const" and isinstance(z.a[0], str) for z in f2.a):
+                nt_fields = [z.a[0] for z in f2.a]
+            elif f2.op == "const" and isinstance(f2.a[0], str):
+                nt_fields = f2.a[0].replace(",", " ").split()
+        if nt_fields is not None and not any(a_.op == "star" for a_ in args) and not any(k_ == "**" for k_, _ in kw):
             # _Result(a, b) / _Result(x=a, y=b) of a private namedtuple is the tuple (a, b)
-            fl = _namedtuples(self.P)[0][fn.a[0]]
+            fl = nt_fields
             vals = dict(zip(fl, args))
             vals.update({k_: v_ for k_, v_ in kw})
             if len(args) <= len(fl) and set(vals) == set(fl):
